@@ -220,6 +220,12 @@ def load_one(lit: LineIterator) -> dict:
 
     result["obasis"] = MolecularBasis(shells, CONVENTIONS, "L2")
     nbasis = fchk["Number of basis functions"]
+    if result["obasis"].nbasis != nbasis:
+        raise LoadError(
+            f"The shell types define {result['obasis'].nbasis} basis functions, "
+            f"which is inconsistent with 'Number of basis functions' ({nbasis}).",
+            lit,
+        )
 
     # C) Load density matrices
     one_rdms = {}
